@@ -27,6 +27,7 @@ func VerifMakeDifficultyCalculator(bombDelay *big.Int) func(time uint64, parent 
 
 func VerifIsLondon(h *Header) bool       { return isLondon(h) }
 func VerifIsArrowGlacier(h *Header) bool { return isArrowGlacier(h) }
+func VerifIsGrayGlacier(h *Header) bool  { return isGrayGlacier(h) }
 
 func VerifDatasetSize(block uint64) uint64  { return datasetSize(block) }
 func VerifCacheSize(block uint64) uint64    { return cacheSize(block) }
